@@ -135,12 +135,19 @@ func builtinObjectDefineProperties(call FunctionCall) Value {
 		panic(call.runtime.panicTypeError("Object.DefineProperties is nil"))
 	}
 
+	// 15.2.3.7: convert every descriptor (step 5) before defining any property (step 7),
+	// so an invalid descriptor leaves the object untouched.
 	properties := call.runtime.toObject(call.Argument(1))
+	var names []string
+	var descriptors []property
 	properties.enumerate(false, func(name string) bool {
-		descriptor := toPropertyDescriptor(call.runtime, properties.get(name))
-		obj.defineOwnProperty(name, descriptor, true)
+		names = append(names, name)
+		descriptors = append(descriptors, toPropertyDescriptor(call.runtime, properties.get(name)))
 		return true
 	})
+	for index, name := range names {
+		obj.defineOwnProperty(name, descriptors[index], true)
+	}
 
 	return val
 }
